@@ -32,8 +32,12 @@ def build(ctx):
                        'Symbol::intern(text).as_str() = text']
     rp = make_replay(ctx)
     part_recognisers(ctx, eng, rp)
+    part_generated_marker(ctx, eng, rp)
     part_module_gate(ctx, eng, rp)
     part_disable_all(ctx, eng, rp)
+
+
+KF_CFG3 = 'C04/is_skip/cfg_attr-with-more-than-one-attribute-is-not-recognised'
 
 
 def part_recognisers(ctx, eng, rp):
@@ -42,67 +46,83 @@ def part_recognisers(ctx, eng, rp):
     eng.stubs = []
     eng.lenient = True
     eng.inline_only = [re.compile(r'^is_skip$'), re.compile(r'^(utils::)?(skip_annotation|depr_skip_annotation)$')]
+    # helpers the recogniser is split into (same file, small) are part of it
+    eng.inline_pred = lambda e, name, callee: e.fn_file(name) == 'src/utils.rs' and len(e.get_fn(name).blocks) <= 40 and not re.search(r'is_skip_nested$', name)
     P = StrVal(e=z3.Const('printed_path', StrSort))
     H = z3.Bool('has_name(cfg_attr)')
-    n = z3.BitVec('list_len', 64)
-    N = z3.Bool('second_entry_is_a_skip_item')
-    eng.stub(r'pprust::path_to_string$', lambda e, s_, a, c: (s_.trace.append(('path_to_string',)), P)[1], 'pprust::path_to_string(path) = symbolic text')
-    eng.stub(r'Symbol::intern$', lambda e, s_, a, c: deref(e, s_, a[0]), 'Symbol::intern(text) = text')
-    eng.stub(r'Symbol::as_str$', lambda e, s_, a, c: deref(e, s_, a[0]), 'Symbol::as_str = the text')
-
-    def has_name(e, s_, a, c):
-        s_.trace.append(('has_name', repr(a[1])))
-        return H
-    eng.stub(r'MetaItem>::has_name$|MetaItem::has_name$', has_name, 'MetaItem::has_name(sym) = symbolic; the symbol is observed')
-    eng.stub(r'ThinVec::<.*>::len$', lambda e, s_, a, c: BV(n, 'usize'), 'ThinVec::len symbolic')
-    eng.stub(r'ThinVec<.*> as (std::ops::)?Deref>::deref$', lambda e, s_, a, c: e.ref_to(s_, Seq([Opaque('MetaItemInner', 'entry0'), Opaque('MetaItemInner', 'entry1')]), False, 'entries'),
-             'ThinVec deref = the two entries (only reached after len() == 2)')
-    eng.stub(r'^is_skip_nested$|utils::is_skip_nested$', lambda e, s_, a, c: (s_.trace.append(('nested',)), N)[1], 'is_skip_nested(second entry) = symbolic (decided by its own obligation)')
-    st = State()
-    st.assume(z3.ULT(n, 1 << 32))
-    mi = eng.ref_to(st, Opaque('rustc_ast::MetaItem', 'meta'), False, 'meta')
-    outs = ctx.check_outcomes(eng.run(isk, [mi], st), 'is_skip')
     SKIP, DEPR = str_expr(StrVal(s='rustfmt::skip')), str_expr(StrVal(s='rustfmt_skip'))
     seen = set()
-    for pi, o in enumerate(outs):
-        if o.kind != 'ret':
-            # slice index l[1] after len == 2: in bounds
-            continue
-        tr = [t[0] for t in o.state.trace]
-        v = o.value
-        if 'path_to_string' in tr:
-            seen.add('word')
-            ctx.prop('is_skip/p%d/word-attribute:iff-the-path-is-rustfmt::skip-or-rustfmt_skip' % pi, o.state.pc, v != z3.Or(P.e == SKIP, P.e == DEPR), [], rp, twin=False)
-        elif 'has_name' in tr:
-            seen.add('list')
-            sym = [t[1] for t in o.state.trace if t[0] == 'has_name'][0]
-            ctx.prop('is_skip/p%d/list-attribute:asks-for-cfg_attr' % pi, o.state.pc, z3.BoolVal('cfg_attr' not in sym), [], rp, twin=False)
-            ctx.prop('is_skip/p%d/list-attribute:iff-cfg_attr-with-two-entries-the-second-a-skip-item' % pi, o.state.pc, v != z3.And(H, n == 2, N), [H, n, N], rp, twin=False)
-        else:
-            seen.add('other')
-            ctx.prop('is_skip/p%d/any-other-attribute-is-not-a-skip' % pi, o.state.pc, v, [], rp, twin=False)
+    for L in (0, 1, 2, 3):          # entries of a list attribute, the predicate included
+        eng.stubs = []
+        N = [z3.Bool('entry%d_is_a_skip_item' % j) for j in range(L)]
+        entries = [Opaque('MetaItemInner', 'entry%d' % j) for j in range(L)]
+        eng.stub(r'pprust::path_to_string$', lambda e, s_, a, c: (s_.trace.append(('path_to_string',)), P)[1], 'pprust::path_to_string(path) = symbolic text')
+        eng.stub(r'Symbol::intern$', lambda e, s_, a, c: deref(e, s_, a[0]), 'Symbol::intern(text) = text')
+        eng.stub(r'Symbol::as_str$', lambda e, s_, a, c: deref(e, s_, a[0]), 'Symbol::as_str = the text')
+
+        def has_name(e, s_, a, c):
+            s_.trace.append(('has_name', repr(a[1])))
+            return H
+        eng.stub(r'MetaItem>::has_name$|MetaItem::has_name$', has_name, 'MetaItem::has_name(sym) = symbolic; the symbol is observed')
+        eng.stub(r'ThinVec::<.*>::len$', lambda e, s_, a, c, L=L: bv_const(L, 'usize'), 'ThinVec::len = the number of harness entries')
+        eng.stub(r'ThinVec<.*> as (std::ops::)?Deref>::deref$|ThinVec::<.*>::as_slice$', lambda e, s_, a, c, entries=entries: e.ref_to(s_, Seq(entries), False, 'entries'), 'ThinVec deref = the harness entries')
+
+        def nested(e, s_, a, c, N=N):
+            v = deref(e, s_, a[0])
+            return N[int(str(v.ident)[5:])]
+        eng.stub(r'^is_skip_nested$|utils::is_skip_nested$', nested, 'is_skip_nested(entry j) = symbolic (decided by its own obligation)')
+        st = State()
+        mi = eng.ref_to(st, Opaque('rustc_ast::MetaItem', 'meta'), False, 'meta')
+        outs = ctx.check_outcomes(eng.run(isk, [mi], st), 'is_skip')
+        for pi, o in enumerate(outs):
+            if o.kind != 'ret':
+                ctx.prop('is_skip/L%d/p%d/no-panic' % (L, pi), o.state.pc, z3.BoolVal(True), [], rp, twin=False)
+                continue
+            tr = [t[0] for t in o.state.trace]
+            v = o.value
+            if 'path_to_string' in tr:
+                seen.add('word')
+                if L == 0:
+                    ctx.prop('is_skip/p%d/word-attribute:iff-the-path-is-rustfmt::skip-or-rustfmt_skip' % pi, o.state.pc, v != z3.Or(P.e == SKIP, P.e == DEPR), [], rp, twin=False)
+            elif 'has_name' in tr:
+                seen.add('list')
+                sym = [t[1] for t in o.state.trace if t[0] == 'has_name'][0]
+                ctx.prop('is_skip/L%d/p%d/list-attribute:asks-for-cfg_attr' % (L, pi), o.state.pc, z3.BoolVal('cfg_attr' not in sym), [], rp, twin=False)
+                # cfg_attr(predicate, attr1, attr2, ..): a skip among the attributes after the predicate counts
+                want = z3.And(H, z3.Or(N[1:])) if L >= 2 else z3.BoolVal(False)
+                ctx.prop('is_skip/L%d/p%d/list-attribute:iff-cfg_attr-carrying-a-skip-item-after-its-predicate' % (L, pi), o.state.pc, v != want, [H] + N, rp, twin=False,
+                         classes=[(KF_CFG3, z3.And(H, z3.BoolVal(L >= 3), z3.Or(N[1:]) if L >= 2 else z3.BoolVal(False)))])
+            else:
+                seen.add('other')
+                if L == 0:
+                    ctx.prop('is_skip/p%d/any-other-attribute-is-not-a-skip' % pi, o.state.pc, v, [], rp, twin=False)
     if seen != {'word', 'list', 'other'}:
         raise Inconclusive('is_skip: arms explored %r' % (sorted(seen),))
-    # nested entry: a meta item is asked again, a literal is not a skip
-    isn = eng.find('is_skip_nested', free=True)
-    eng.stubs = []
-    eng.inline_only = [re.compile(r'^is_skip_nested$')]
-    R = z3.Bool('inner_item_is_skip')
-    eng.stub(r'^is_skip$|utils::is_skip$', lambda e, s_, a, c: (s_.trace.append(('is_skip',)), R)[1], 'is_skip(inner meta item) = symbolic')
-    st = State()
-    outs = ctx.check_outcomes(eng.run(isn, [eng.ref_to(st, Opaque('rustc_ast::MetaItemInner', 'inner'), False, 'inner')], st), 'is_skip_nested')
-    arms = set()
-    for pi, o in enumerate(outs):
-        if o.kind != 'ret':
-            continue
-        if any(t[0] == 'is_skip' for t in o.state.trace):
-            arms.add('meta')
-            ctx.prop('is_skip_nested/p%d/meta-item:the-answer-of-is_skip' % pi, o.state.pc, o.value != R, [R], rp, twin=False)
-        else:
-            arms.add('lit')
-            ctx.prop('is_skip_nested/p%d/literal:not-a-skip' % pi, o.state.pc, o.value, [], rp, twin=False)
-    if arms != {'meta', 'lit'}:
-        raise Inconclusive('is_skip_nested: arms explored %r' % (sorted(arms),))
+    # nested entry: a meta item is asked again, a literal is not a skip (only if the recogniser still has that helper)
+    try:
+        isn = eng.find('is_skip_nested', free=True)
+    except KeyError:
+        isn = None
+        ctx.notes.append('is_skip_nested no longer exists: entries are judged inside is_skip itself')
+    if isn is not None:
+        eng.stubs = []
+        eng.inline_only = [re.compile(r'^is_skip_nested$')]
+        R = z3.Bool('inner_item_is_skip')
+        eng.stub(r'^is_skip$|utils::is_skip$', lambda e, s_, a, c: (s_.trace.append(('is_skip',)), R)[1], 'is_skip(inner meta item) = symbolic')
+        st = State()
+        outs = ctx.check_outcomes(eng.run(isn, [eng.ref_to(st, Opaque('rustc_ast::MetaItemInner', 'inner'), False, 'inner')], st), 'is_skip_nested')
+        arms = set()
+        for pi, o in enumerate(outs):
+            if o.kind != 'ret':
+                continue
+            if any(t[0] == 'is_skip' for t in o.state.trace):
+                arms.add('meta')
+                ctx.prop('is_skip_nested/p%d/meta-item:the-answer-of-is_skip' % pi, o.state.pc, o.value != R, [R], rp, twin=False)
+            else:
+                arms.add('lit')
+                ctx.prop('is_skip_nested/p%d/literal:not-a-skip' % pi, o.state.pc, o.value, [], rp, twin=False)
+        if arms != {'meta', 'lit'}:
+            raise Inconclusive('is_skip_nested: arms explored %r' % (sorted(arms),))
     # contains_skip: some parsable attribute is a skip
     cs = eng.find('contains_skip', free=True)
     for k in (0, 1, 2):
@@ -126,6 +146,57 @@ def part_recognisers(ctx, eng, rp):
                 ctx.prop('contains_skip/k%d/p%d/no-panic' % (k, pi), o.state.pc, z3.BoolVal(True), [], rp, twin=False)
                 continue
             ctx.prop('contains_skip/k%d/p%d/iff-some-parsable-attribute-is-a-skip' % (k, pi), o.state.pc, o.value != want, has_meta + skp, rp, twin=False)
+    eng.stubs = []
+    eng.lenient = False
+    eng.inline_only = None
+    eng.inline_pred = None
+
+
+def part_generated_marker(ctx, eng, rp):
+    """formatting/generated.rs::is_generated_file: true iff one of the first `generated_marker_line_search_limit` lines contains the marker"""
+    igf = eng.find('is_generated_file', free=True)
+    eng.lenient = True
+    eng.inline_only = [re.compile(r'is_generated_file'), re.compile(r'src/config/config_type\.rs'), re.compile(r'^Config::')]
+    for L in range(0, 4):
+        for limit in range(0, L + 2):
+            eng.stubs = []
+            marker = [z3.Bool('line%d_contains_the_marker' % j) for j in range(L)]
+            lines = [StrVal(e=z3.Const('line%d' % j, __import__('mirsym.engine', fromlist=['StrSort']).StrSort)) for j in range(L)]
+
+            def s_lines(e, s_, a, c, lines=lines):
+                cell = e.ref_to(s_, Seq(list(lines)), False, 'lines')
+                return Tup([cell, bv_const(0, 'usize')], 'OwnedIter')
+            eng.stub(r'<impl str>::lines$', s_lines, 'str::lines = the harness lines')
+
+            def s_take(e, s_, a, c):
+                it = a[0]
+                k = a[1].concrete()
+                if k is None:
+                    raise Unsupported('take with a symbolic limit')
+                cell, pos = it.items
+                seq = e.read_ref(s_, cell)
+                return Tup([e.ref_to(s_, Seq(list(seq.items[pos.concrete():][:k])), False, 'taken'), bv_const(0, 'usize')], 'OwnedIter')
+            eng.stub(r'Lines<.*> as (std::iter::)?Iterator>::take$', s_take, 'Lines::take(n)')
+
+            def s_contains(e, s_, a, c, lines=lines, marker=marker):
+                ln, pat = deref(e, s_, a[0]), deref(e, s_, a[1])
+                if not (isinstance(pat, StrVal) and pat.s == '@generated'):
+                    raise Inconclusive('is_generated_file looks for %r' % (pat,))
+                for j, l_ in enumerate(lines):
+                    if isinstance(ln, StrVal) and ln.e is not None and ln.e.eq(l_.e):
+                        return marker[j]
+                raise Unsupported('contains on %r' % (ln,))
+            eng.stub(r'<impl str>::contains::<', s_contains, 'line.contains("@generated") = symbolic per line; the pattern is checked')
+            st = State()
+            cfgref, cv = make_config(eng, st, values={'generated_marker_line_search_limit': bv_const(limit, 'usize')})
+            text = StrVal(e=z3.Const('file_text', __import__('mirsym.engine', fromlist=['StrSort']).StrSort))
+            outs = ctx.check_outcomes(eng.run(igf, [text, Ref(cfgref.key, cfgref.projs, False)], st), 'is_generated_file')
+            want = z3.Or(marker[:min(limit, L)]) if min(limit, L) else z3.BoolVal(False)
+            for pi, o in enumerate(outs):
+                if o.kind != 'ret':
+                    ctx.prop('generated/L%d/limit%d/p%d/no-panic' % (L, limit, pi), o.state.pc, z3.BoolVal(True), marker, rp, twin=False)
+                    continue
+                ctx.prop('generated/L%d/limit%d/p%d/iff-the-marker-is-on-one-of-the-first-limit-lines' % (L, limit, pi), o.state.pc, o.value != want, marker, rp, twin=False)
     eng.stubs = []
     eng.lenient = False
     eng.inline_only = None
@@ -216,7 +287,7 @@ def cli_findings():
     d = os.path.join(BUILD, 'scratch', 'c04-%d' % os.getpid())
     shutil.rmtree(d, ignore_errors=True)
     os.makedirs(d)
-    found = []
+    found = {}
     bad = 'fn   f( ) { }\n'
 
     def run(args, src, name='x.rs', stdin=None):
@@ -225,30 +296,37 @@ def cli_findings():
         r = subprocess.run([rf] + args + ([] if stdin is not None else [name]), input=stdin, capture_output=True, text=True, env=run_env(), timeout=60, cwd=d)
         return r, open(p).read()
     for what, attr, skipped in (('rustfmt::skip', '#[rustfmt::skip]\n', True), ('rustfmt_skip', '#[rustfmt_skip]\n', True), ('cfg_attr(rustfmt, rustfmt::skip)', '#[cfg_attr(rustfmt, rustfmt::skip)]\n', True),
-                                ('cfg_attr(rustfmt, rustfmt_skip)', '#[cfg_attr(rustfmt, rustfmt_skip)]\n', True), ('cfg_attr with three entries', '#[cfg_attr(rustfmt, rustfmt::skip, inline)]\n', False),
+                                ('cfg_attr(rustfmt, rustfmt_skip)', '#[cfg_attr(rustfmt, rustfmt_skip)]\n', True), ('cfg_attr with two attributes', '#[cfg_attr(rustfmt, rustfmt::skip, inline)]\n', True),
+                                ('nested cfg_attr', '#[cfg_attr(rustfmt, cfg_attr(rustfmt, rustfmt::skip))]\n', True), ('cfg_attr without a skip', '#[cfg_attr(rustfmt, inline)]\n', False),
                                 ('another attribute', '#[inline]\n', False), ('no attribute', '', False)):
         src = attr + bad
         r, now = run(['--emit', 'stdout', '--quiet'], src)
         out = r.stdout
         kept = bad in out
         if kept != skipped:
-            found.append('%s: the item is %s' % (what, 'kept verbatim' if kept else 'reformatted'))
+            found.setdefault(KF_CFG3 if what == 'cfg_attr with two attributes' else 'other', []).append('%s: the item is %s' % (what, 'kept verbatim' if kept else 'reformatted'))
+    # generated marker: anywhere in the first generated_marker_line_search_limit (default 5) lines
+    for line_no, skipped in ((1, True), (5, True), (6, False)):
+        src = '// header\n' * (line_no - 1) + '// @generated\n' + bad
+        r, now = run(['--config', 'format_generated_files=false'], src)
+        if (now == src) != skipped:
+            found.setdefault('other', []).append('@generated on line %d with format_generated_files=false: the file is %s' % (line_no, 'left alone' if now == src else 'rewritten'))
     # whole-file opt-outs
     r, now = run([], '#![rustfmt::skip]\n' + bad)
     if now != '#![rustfmt::skip]\n' + bad:
-        found.append('a file with an inner skip attribute was rewritten')
+        found.setdefault('other', []).append('a file with an inner skip attribute was rewritten')
     r = subprocess.run([rf], input='#![rustfmt::skip]\n' + bad, capture_output=True, text=True, env=run_env(), timeout=60, cwd=d)
     if r.stdout != '#![rustfmt::skip]\n' + bad:
-        found.append('standard input with an inner skip attribute is not echoed back: %r' % r.stdout[:40])
+        found.setdefault('other', []).append('standard input with an inner skip attribute is not echoed back: %r' % r.stdout[:40])
     r, now = run(['--config', 'disable_all_formatting=true'], bad)
     if now != bad:
-        found.append('disable_all_formatting=true rewrote the file')
+        found.setdefault('other', []).append('disable_all_formatting=true rewrote the file')
     r = subprocess.run([rf, '--config', 'disable_all_formatting=true'], input=bad, capture_output=True, text=True, env=run_env(), timeout=60, cwd=d)
     if r.stdout != bad:
-        found.append('disable_all_formatting=true on standard input does not echo the input: %r' % r.stdout[:40])
+        found.setdefault('other', []).append('disable_all_formatting=true on standard input does not echo the input: %r' % r.stdout[:40])
     r, now = run(['--check', '--config', 'disable_all_formatting=true'], bad)
     if r.returncode != 0:
-        found.append('--check with disable_all_formatting=true exits %d' % r.returncode)
+        found.setdefault('other', []).append('--check with disable_all_formatting=true exits %d' % r.returncode)
     shutil.rmtree(d, ignore_errors=True)
     return found
 
@@ -256,7 +334,11 @@ def cli_findings():
 def make_replay(ctx):
     def replay(model, r):
         f = cli_findings()
-        return {'reproduced': bool(f), 'detail': f[:4]}
+        key = r.ob.meta.get('key')
+        if key:
+            return {'reproduced': key in f, 'detail': f.get(key, [])[:3]}
+        other = {k: v for k, v in f.items() if k not in ctx.open_keys}
+        return {'reproduced': bool(other), 'detail': {k: v[:3] for k, v in other.items()}}
     return replay
 
 
